@@ -451,6 +451,25 @@ static void prop_c16(Tape &t, Result &r) {
       return;
     }
   }
+  {
+    // the bound holds for every run of the machine, also a second one after reset() (from the end or from the middle
+    // of the first): a copy is reset and run again
+    Theo::VM again(cr.code);
+    long long half = std::min<long long>(i / 2, 1500);
+    for (long long k = 0; k < half && !again.isDone(); k++) again.executeSingle();
+    for (int pass = 0; pass < 2; pass++) {
+      again.reset();
+      for (long long k = 0; k < std::min<long long>(budget, 3000) && !again.isDone(); k++) {
+        again.executeSingle();
+        if (again.getActivations().size() > limit) {
+          r.fail("rec:activation-stack-too-deep", "after reset(): activation stack has " + std::to_string(again.getActivations().size()) +
+                                                      " entries with " + std::to_string(c.prog.defs.size()) + " program definitions");
+          return;
+        }
+      }
+    }
+    r.cls("rerun-after-reset");
+  }
   if (cfg.loops_only) {
     if (st == ri::Interp::DIVERGED || st == ri::Interp::BIG) {
       r.discard = true;  // halts, but not within the budget this check can afford / values too big
